@@ -1,5 +1,5 @@
 //@PROBE file=src/track/store.rs test=verif_probe_store_c09 clauses=C09/ units=store_future_merge,store_c09
-//@BOUND shard counts 1..=5; ids 0..=5 and wide ids (2^32+1, 2*2^32+2, 7*2^40+3, 0x9e3779b97f4a7c15, u64::MAX-1, u64::MAX); merges over {dest missing, src missing, same id, attribute-merge failure, optimize failure, success} x {remove_src yes/no}; the failure cases also for a source without any observation class and for class lists None / empty / [0]; add() on a missing id vs builder
+//@BOUND shard counts 1..=5; a rejected duplicate leaves the stored track as it was; ids 0..=5 and wide ids (2^32+1, 2*2^32+2, 7*2^40+3, 0x9e3779b97f4a7c15, u64::MAX-1, u64::MAX); merges over {dest missing, src missing, same id, attribute-merge failure, optimize failure, success} x {remove_src yes/no}; the failure cases also for a source without any observation class and for class lists None / empty / [0]; add() on a missing id vs builder
 #[cfg(test)]
 mod verif_probe_store_c09 {
     use super::*;
@@ -63,7 +63,9 @@ mod verif_probe_store_c09 {
                 if s.stores[(id as usize) % shards].lock().unwrap().get(&id).is_none() { failures.push(format!("{}: track {} not in shard id % shards", ctx, id)); }
             }
             let dup = mk(&s, 3, &[9.0]);
+            let stored3 = peek(&s, 3);
             if s.add_track(dup).is_ok() { failures.push(format!("{}: duplicate id accepted", ctx)); }
+            if peek(&s, 3) != stored3 || s.shard_stats().iter().sum::<usize>() != 6 { failures.push(format!("{}: a rejected duplicate changed the stored track: {:?} before, {:?} after", ctx, stored3, peek(&s, 3))); }
             let got = s.fetch_tracks(&[1, 4, 17]);
             let mut ids: Vec<u64> = got.iter().map(|t| t.track_id).collect(); ids.sort();
             if ids != vec![1, 4] { failures.push(format!("{}: fetch_tracks([1,4,17]) returned {:?}", ctx, ids)); }
